@@ -117,12 +117,10 @@ theorem step_seqRound (gas : Nat) (ih : Shrinks gas) :
       · split at h
         · cases h
         · split at h
-          · cases h
-          · split at h
-            · simp only [pure_eq_ok] at h; subst h; simp
-            · obtain ⟨r', hr', h⟩ := bind_ok _ _ _ h
-              simp only [pure_eq_ok] at h; subst h
-              exact ih.seqRound _ _ _ _ _ r' hr'
+          · simp only [pure_eq_ok] at h; subst h; simp
+          · obtain ⟨r', hr', h⟩ := bind_ok _ _ _ h
+            simp only [pure_eq_ok] at h; subst h
+            exact ih.seqRound _ _ _ _ _ r' hr'
     · cases h
     · rename_i r0 hr0
       have h0 := ih.parseP _ _ _ _ hr0
